@@ -39,6 +39,15 @@ def parsePool (j : Json) : Except String Pool := do
     match p.placeTask (← fldNat r "lid") strats (some s) (some (← fldNat r "w")) with
     | (p', .ok true) => p := p'
     | _ => throw "running task does not fit the worker it is said to run on"
+  -- work profiles whose load is in progress on a worker (`Worker.load_profile` called, not yet stepped)
+  match fldOpt j "profiles" with
+  | none => pure ()
+  | some pj =>
+    for r in ← pj.getArr? do
+      let s ← Ledger.parseStrat (← fld r "s")
+      match p.loadProfile (← fldNat r "p") s (some (← fldNat r "w")) with
+      | (p', .ok) => p := p'
+      | _ => throw "loading profile does not fit the worker it is said to load on"
   return p
 
 def jWorkerV (w : Worker) : Json :=
